@@ -191,6 +191,30 @@ func (v val) rat() *big.Rat {
 	return r
 }
 
+// cleanInt: surrounding blanks and one leading '+' are tolerated (as MySQL does); the rest must be [-]digits.
+func cleanInt(x string) (*big.Int, bool) {
+	t := strings.Trim(x, " \t")
+	t = strings.TrimPrefix(t, "+")
+	if t == "" || strings.HasPrefix(t, "+") || strings.ContainsAny(t, " \t\n_") {
+		return nil, false
+	}
+	for i := 0; i < len(t); i++ {
+		if !(t[i] >= '0' && t[i] <= '9') && !(i == 0 && t[i] == '-' && len(t) > 1) {
+			return nil, false
+		}
+	}
+	return new(big.Int).SetString(t, 10)
+}
+
+// zbytes prints a string as a Coq list of Z byte values.
+func zbytes(x string) string {
+	items := make([]string, len(x))
+	for i := 0; i < len(x); i++ {
+		items[i] = fmt.Sprintf("%d%%Z", x[i])
+	}
+	return lib.CoqList(items)
+}
+
 func pow10(k int64) *big.Int { return new(big.Int).Exp(big.NewInt(10), big.NewInt(k), nil) }
 
 func (v val) coq() string {
@@ -340,11 +364,17 @@ func gen(r *lib.RNG) caseT {
 		c.Target = t.Name
 		c.Src = "string"
 		z := genIntFor(r, bi("-100000000000000000000"), bi("100000000000000000000"), t)
-		switch r.Intn(5) {
+		switch r.Intn(8) {
 		case 0:
-			c.Text = z.String() + lib.Pick(r, []string{"abc", "x", " 1", "-"})
+			c.Text = z.String() + lib.Pick(r, []string{"abc", "x", " 1", "-", ".5", "e3", "\n"})
 		case 1:
-			c.Text = lib.Pick(r, []string{"abc", "", "-", "x1"})
+			c.Text = lib.Pick(r, []string{"abc", "", "-", "x1", "+", " ", "\t-\t", "+-5", "--5", "- 5"})
+		case 2:
+			c.Text = lib.Pick(r, []string{" ", "\t", "  "}) + z.String() + lib.Pick(r, []string{"", " ", "\t "})
+		case 3:
+			c.Text = "+" + new(big.Int).Abs(z).String()
+		case 4:
+			c.Text = lib.Pick(r, []string{"00", "-000", "0"}) + new(big.Int).Abs(z).String()
 		default:
 			c.Text = z.String()
 		}
@@ -491,7 +521,16 @@ func run(c *lib.Ctx, cs caseT) {
 
 	// ---- strings: implementation-side predicate only ----
 	if tkind == "str" || tkind == "bin" {
-		id := c.CaseNoModel(cs, "str|"+cs.Target+"|"+cs.Text)
+		outS := "TErr"
+		if err == nil && flag == sql.InRange && (ov.Kind == "str" || ov.Kind == "bytes") {
+			outS = "(TOk " + zbytes(ov.S) + ")"
+		}
+		var id int
+		if utf8.ValidString(cs.Text) || tkind == "bin" {
+			id = c.Case(fmt.Sprintf("(TextCase %s %d%%Z %s %d%%Z %s)", lib.CoqBool(tkind == "bin"), p, zbytes(cs.Text), utf8.RuneCountInString(cs.Text), outS), cs, "str|"+cs.Target+"|"+cs.Text)
+		} else {
+			id = c.CaseNoModel(cs, "str|"+cs.Target+"|"+cs.Text)
+		}
 		c.PredChecked()
 		n := int64(utf8.RuneCountInString(cs.Text))
 		if tkind == "bin" {
@@ -516,12 +555,18 @@ func run(c *lib.Ctx, cs caseT) {
 		return
 	}
 	if cs.Src == "string" { // numeric text into an integer type
-		id := c.CaseNoModel(cs, "numstr|"+cs.Target+"|"+cs.Text)
-		c.PredChecked()
-		z, clean := new(big.Int).SetString(cs.Text, 10)
-		if strings.HasPrefix(cs.Text, "+") {
-			clean = false
+		var id int
+		if it.Coq != "U64" && !pn {
+			outS := "CErr"
+			if err == nil && (ov.Kind == "si" || ov.Kind == "su") {
+				outS = fmt.Sprintf("(COk %s %s)", ov.coq(), flagName[flag])
+			}
+			id = c.Case(fmt.Sprintf("(StrIntCase %s %s %s)", it.Coq, zbytes(cs.Text), outS), cs, "numstr|"+cs.Target+"|"+cs.Text)
+		} else {
+			id = c.CaseNoModel(cs, "numstr|"+cs.Target+"|"+cs.Text)
 		}
+		c.PredChecked()
+		z, clean := cleanInt(cs.Text)
 		switch {
 		case clean && z.Cmp(it.Min) >= 0 && z.Cmp(it.Max) <= 0:
 			if err != nil || flag != sql.InRange || (ov.Kind != "si" && ov.Kind != "su") || ov.Z.Cmp(z) != 0 {
@@ -560,7 +605,7 @@ func run(c *lib.Ctx, cs caseT) {
 		}
 		outCoq = fmt.Sprintf("(COk %s %s)", ov.coq(), flagName[flag])
 	}
-	id := c.Case(lib.CoqTuple(tcoq, src.coq(), outCoq), cs, cs.Target+"|"+src.coq())
+	id := c.Case("(NumCase "+tcoq+" "+src.coq()+" "+outCoq+")", cs, cs.Target+"|"+src.coq())
 	c.PredChecked()
 	c.Count("flag:" + map[bool]string{true: "error", false: flagName[flag]}[err != nil])
 	x := src.rat()
@@ -657,8 +702,7 @@ func runInsert(c *lib.Ctx, cs caseT, it *intType, p, s int64, src val, fail func
 		if it == nil || cs.Mode != "insert" {
 			return
 		}
-		z, clean := new(big.Int).SetString(cs.Text, 10)
-		clean = clean && !strings.HasPrefix(cs.Text, "+")
+		z, clean := cleanInt(cs.Text)
 		rd := sess.Query("SELECT c FROM " + name)
 		stored := r.Err == nil && rd.Err == nil && len(rd.Rows) == 1
 		switch {
@@ -734,7 +778,7 @@ func runInsert(c *lib.Ctx, cs caseT, it *intType, p, s int64, src val, fail func
 
 func main() {
 	lib.Main("C27", func(c *lib.Ctx) {
-		c.Header = "From Coq Require Import List NArith ZArith.\nImport ListNotations.\nFrom GMS Require Import Codec.C25Arith Codec.C27Convert Corr.C27.\nOpen Scope N_scope."
+		c.Header = "From Coq Require Import List NArith ZArith.\nImport ListNotations.\nFrom GMS Require Import Codec.C25Arith Codec.C27Convert Codec.C27Strings Corr.C27.\nOpen Scope N_scope."
 		c.CaseType = "C27.case"
 		c.MismatchFn = "C27.mismatches"
 		c.SetRule("(target type, source value) pairs: targets = the ten integer types, DECIMAL(p,s) of nine shapes as column and " +
